@@ -18,6 +18,9 @@ func TestPropNS(t *testing.T) { hx.Check(t, "ns", GenNS, ExecNS) }
 // TestPropBytes: arbitrary stored bytes never crash a read.
 func TestPropBytes(t *testing.T) { hx.Check(t, "bytes", GenBytes, ExecBytes) }
 
+// TestPropTenants: filespaces with different keys used at the same time by different goroutines.
+func TestPropTenants(t *testing.T) { hx.Check(t, "tenants", GenTenants, ExecTenants) }
+
 // TestEnum: the fixed grid cipher x base x plaintext length around the block boundaries,
 // each with EVERY truncation length and EVERY single-bit change of the stored blob.
 func TestEnum(t *testing.T) {
@@ -61,7 +64,7 @@ func jsonInts(a []int) string { b, _ := json.Marshal(a); return "plaintext lengt
 
 func TestReplay(t *testing.T) {
 	hx.Replay(t, map[string]func(json.RawMessage) (hx.Verdict, error){
-		"crypt": hx.Exec(Exec), "": hx.Exec(Exec), "ns": hx.Exec(ExecNS), "bytes": hx.Exec(ExecBytes)})
+		"crypt": hx.Exec(Exec), "": hx.Exec(Exec), "ns": hx.Exec(ExecNS), "bytes": hx.Exec(ExecBytes), "tenants": hx.Exec(ExecTenants)})
 }
 
 // FuzzBytes: native fuzzing of both read paths and of Decrypt/DecryptReader on arbitrary
